@@ -106,6 +106,9 @@ PctDecodeAcc(s, i) ==
        ELSE Utf8(s[i]) \o PctDecodeAcc(s, i + 1)
 PctDecode(s) == PctDecodeAcc(s, 1)
 
+(* bytes of a Go string given as text: a raw pseudo code point is the single byte it stands for *)
+BytesOfT(t) == Flat([i \in 1..Len(t) |-> IF IsRaw(t[i]) THEN <<t[i] - RawBase>> ELSE Utf8(t[i])])
+
 (* one UTF-8 sequence starting at b[i]: <<code point, length>> or <<-1, 1>> if b[i] does not start a valid one *)
 IsCont(b) == b >= 128 /\ b <= 191
 Utf8At(b, i) ==
